@@ -252,20 +252,33 @@ fn case_strategy(j: &Job) -> BoxedStrategy<Case> {
 
 pub fn run_worker(ctx: &Ctx, rep: &mut Report, chunk: usize, nchunks: usize) {
     let js = jobs();
-    let mut ctx1 = ctx.clone();
-    ctx1.threads = 1;
     let nf = js.iter().filter(|j| matches!(j.ty, Ty::Float(_))).count().max(1) as u64;
     let ni = js.iter().filter(|j| matches!(j.ty, Ty::Int(_))).count().max(1) as u64;
+    let per_of = |j: &Job| match j.ty {
+        Ty::Float(_) => ctx.n((300_000 / nf).max(250), (60_000_000 / nf).max(20_000)),
+        Ty::Int(_) => ctx.n((200_000 / ni).max(150), (30_000_000 / ni).max(10_000)),
+    };
+    // work units: a job is split into parts so that builds with few formats still use every worker;
+    // each (job, part) has its own generator stream
+    let total: u64 = js.iter().map(|j| per_of(j)).sum();
+    let target = (total / (nchunks as u64 * 4)).max(200);
+    let mut unit = 0usize;
     for (ji, j) in js.iter().enumerate() {
-        if ji % nchunks != chunk {
-            continue;
+        let per = per_of(j);
+        let parts = ((per + target - 1) / target).max(1);
+        for part in 0..parts {
+            let mine = unit % nchunks == chunk;
+            unit += 1;
+            if !mine {
+                continue;
+            }
+            let mut ctx1 = ctx.clone();
+            ctx1.threads = 1;
+            ctx1.seed = mix(ctx.seed, &["c09-unit", &ji.to_string(), &part.to_string()]);
+            let n = per / parts + if part < per % parts { 1 } else { 0 };
+            let jobs1 = [j.clone()];
+            run_prop_jobs(rep, &ctx1, if matches!(j.ty, Ty::Float(_)) { "floats:generated" } else { "integers:generated" }, &jobs1, n, case_strategy, |j, c| case_json(j, c, None, None), check_case);
         }
-        let per = match j.ty {
-            Ty::Float(_) => ctx.n((300_000 / nf).max(250), (60_000_000 / nf).max(20_000)),
-            Ty::Int(_) => ctx.n((200_000 / ni).max(150), (30_000_000 / ni).max(10_000)),
-        };
-        let jobs1 = [j.clone()];
-        run_prop_jobs(rep, &ctx1, if matches!(j.ty, Ty::Float(_)) { "floats:generated" } else { "integers:generated" }, &jobs1, per, case_strategy, |j, c| case_json(j, c, None, None), check_case);
     }
 }
 
